@@ -189,6 +189,28 @@ Theorem C06_payload_roundtrip :
 Proof. intros priv point pub dh. exact (payload_roundtrip priv point pub dh false false). Qed.
 Print Assumptions C06_payload_roundtrip.
 
+(* the recorded finding (a), exactly: after the announcement was processed and its reply lost, the
+   client still holds keysNext and the old key; ONE further exchange is garbled and at its end
+   both ends are settled on the new share; every exchange after that is intact.  This is what the
+   harness accepts under the finding; a client that never catches up is a different violation *)
+Theorem C06_reply_lost_after_processing_heals :
+  forall (priv point : Type) (pub : priv -> point) (dh : priv -> point -> list Z),
+  (forall a b, dh a (pub b) = dh b (pub a)) ->
+  forall s k q0 p q,
+  settled pub s ->
+  let lost := run pub dh false false [RekeySend k; RekeyRecv q0; ReplyLost] s in
+  let s' := run pub dh false false [DataSend p; RekeyRecv q; ReplyRecv] lost in
+  let old := c_share (cl s) in
+  let new := fill_shared old (dh k (pub (s_priv (sv s)))) in
+  (c_next (cl lost) = Some k /\ c_share (cl lost) = old /\ s_share (sv lost) = new /\ waiting lost = false) /\
+  settled pub s' /\ c_share (cl s') = new /\ s_share (sv s') = new /\ c_priv (cl s') = k /\
+  s_seen s' = deliver (xor_op (xor_op p old) new) (s_seen s) /\
+  c_seen s' = deliver (xor_op (xor_op q new) old) (c_seen s) /\
+  (forall p2 q2, let s'' := run pub dh false false [DataSend p2; RekeyRecv q2; ReplyRecv] s' in
+                 s_seen s'' = deliver p2 (s_seen s') /\ c_seen s'' = deliver q2 (c_seen s') /\ settled pub s'').
+Proof. intros priv point pub dh H. exact (reply_lost_after_processing_heals priv point pub dh H false false). Qed.
+Print Assumptions C06_reply_lost_after_processing_heals.
+
 (* ---- channels --------------------------------------------------------------------------- *)
 (* pick(): whatever is queued and whatever `i` is, a client inside a channel never reaches
    keyNextSync (the client-channel case returns first); outside a channel the idle tick may draw *)
